@@ -317,7 +317,7 @@ Proof.
   unfold mm_parent. rewrite L. pose proof (CB p Hp) as HpB.
   destruct (ni_is_right ni) eqn:R.
   - destruct (Ct eq_refl) as (Hr0 & Ep & _). rewrite Hp in Ep. injection Ep as ->.
-    destruct (Z.eqb_spec (ni_rll ni) 0); [lia|]. cbn [negb]. unfold chk, add_ok.
+    destruct (Z.eqb_spec (ni_rll ni) 0); [lia|]. cbn [negb]. unfold mm_chk, add_ok.
     destruct (Z.ltb_spec (x + 1) (2 ^ 64)); [|lia]. rewrite wadd64_small by lia. reflexivity.
   - destruct (Cf eq_refl) as (Hr0 & [[Ep _]|[Ep _]]); [congruence|]. rewrite Hp in Ep. injection Ep as ->.
     rewrite Hr0. cbn [Z.eqb negb].
@@ -326,7 +326,7 @@ Proof.
     assert (E1 : wadd 32 (ni_height ni) 1 = ni_height ni + 1) by (apply wadd32_small; pow_lits; lia).
     rewrite E1. rewrite wshl64_1, shift_ok_64 by lia. unfold add_ok.
     destruct (Z.ltb_spec (ni_height ni + 1) (2 ^ 32)); [|pow_lits; lia].
-    unfold chk. destruct (Z.ltb_spec (x + 2 ^ (ni_height ni + 1)) (2 ^ 64)); [|lia].
+    unfold mm_chk. destruct (Z.ltb_spec (x + 2 ^ (ni_height ni + 1)) (2 ^ 64)); [|lia].
     rewrite wadd64_small by lia. reflexivity.
 Qed.
 
@@ -344,7 +344,7 @@ Proof.
   - destruct (Ct eq_refl) as (Hr0 & _ & Es). rewrite Hs in Es. injection Es as ->.
     pose proof (pow2_lt64_inv (ni_height ni + 1) ltac:(lia) ltac:(lia)) as H64.
     unfold mm_left_sibling. destruct (left_sibling_val x (ni_height ni) ltac:(lia) ltac:(lia)) as [-> ->].
-    unfold chk. f_equal. lia.
+    unfold mm_chk. f_equal. lia.
   - destruct (Cf eq_refl) as (Hr0 & [[_ Es]|[Ep Es]]); [congruence|]. rewrite Hs in Es. injection Es as ->.
     pose proof (CB _ Ep) as HpB.
     pose proof (pow2_lt64_inv (ni_height ni + 1) ltac:(lia) ltac:(lia)) as H64.
@@ -840,7 +840,7 @@ Theorem added_by_append_correct n : 0 <= n < 2 ^ 63 ->
   mm_node_indices_added_by_append n = Some (spec_added_by_append n).
 Proof.
   intros Hn. unfold mm_node_indices_added_by_append, mm_leaf_index_to_node_index.
-  destruct (leaf_index_to_node_index_val n Hn) as [Ok V]. rewrite Ok. unfold chk.
+  destruct (leaf_index_to_node_index_val n Hn) as [Ok V]. rewrite Ok. unfold mm_chk.
   assert (Hc : ncount (n + 1) < 2 ^ 64).
   { unfold ncount. pose proof (count_ones_pos (n + 1) ltac:(lia)). pow_lits. lia. }
   destruct (leaf_node_located (n + 1) n ltac:(lia) ltac:(pow_lits; lia) Hc ltac:(lia))
